@@ -1,51 +1,36 @@
-"""Evaluate a seeded regression: demo passes/fails in a scratch worktree, then the registered checks run against
-/repo with the patch applied (and /repo is restored).  usage: seed_eval.py <seed_dir> <worktree> <PROP>[,PROP...] [--suite]"""
+"""Evaluate a seeded regression in a scratch worktree (never /repo): demo exit codes clean/patched, then the
+registered quick checks with VERIF_REPO=<worktree>.  usage: seed_eval.py <seed_dir> <worktree> <PROP>[,PROP...]"""
 import json, os, subprocess, sys, time
 
-def sh(cmd, cwd=None, timeout=3600):
-    p = subprocess.run(cmd, shell=True, cwd=cwd, capture_output=True, text=True, timeout=timeout)
-    return p.returncode, (p.stdout + ("" if "checks/" in cmd else p.stderr))
+def sh(cmd, cwd=None, timeout=7200, env=None):
+    p = subprocess.run(cmd, shell=True, cwd=cwd, capture_output=True, text=True, timeout=timeout, env=env)
+    return p.returncode, p.stdout, p.stderr
 
 def main():
     seed, wt, props = sys.argv[1], sys.argv[2], sys.argv[3].split(",")
-    suite = "--suite" in sys.argv
     tier = "thorough" if "--thorough" in sys.argv else "quick"
     patch = os.path.join(seed, "patch.diff")
     res = {"seed": seed, "props": props}
     sh("git checkout -- . && git clean -fdq", cwd=wt)
-    rc0, _ = sh(f"/venv/bin/python {seed}/demo.py", cwd=wt)
-    rc, out = sh(f"git apply {patch}", cwd=wt)
+    rc0, _, _ = sh(f"/venv/bin/python {seed}/demo.py", cwd=wt)
+    rc, out, err = sh(f"git apply {patch}", cwd=wt)
     if rc != 0:
-        print("PATCH DOES NOT APPLY", out); return 2
-    rc1, out1 = sh(f"/venv/bin/python {seed}/demo.py", cwd=wt)
+        print("PATCH DOES NOT APPLY", err); return 2
+    rc1, out1, err1 = sh(f"/venv/bin/python {seed}/demo.py", cwd=wt)
     res["demo_clean_rc"], res["demo_patched_rc"] = rc0, rc1
-    res["demo_patched_tail"] = out1[-600:]
-    if suite:
-        t0 = time.time()
-        _rc, o = sh("/venv/bin/python -m pytest -q -p no:cacheprovider --timeout=900 -n 8 2>&1 | tail -4", cwd=wt, timeout=7200)
-        res["suite_tail"] = o.strip().splitlines()[-1] if o.strip() else ""
-        res["suite_failed_lines"] = [l for l in o.splitlines() if l.startswith("FAILED")]
-        res["suite_secs"] = round(time.time() - t0)
-    sh("git checkout -- . && git clean -fdq", cwd=wt)
-    # now against /repo
-    rc, out = sh("git status --porcelain", cwd="/repo")
-    if out.strip():
-        print("/repo not clean, refusing", out); return 2
-    rc, out = sh(f"git apply {patch}", cwd="/repo")
-    if rc != 0:
-        print("PATCH DOES NOT APPLY TO /repo", out); return 2
+    res["demo_patched_tail"] = (out1 + err1)[-300:]
+    env = dict(os.environ, VERIF_REPO=wt, VERIF_TIER=tier, VERIF_EVIDENCE_DIR="/tmp/wt/eval_evidence")
+    res["checks"] = {}
     try:
-        res["checks"] = {}
         for p in props:
             t0 = time.time()
-            rc, o = sh(f"VERIF_TIER={tier} /verif/.venv/bin/python /verif/checks/{p.lower()}.py", cwd="/verif", timeout=7200)
-            viol = [l for l in o.splitlines() if l.startswith("VIOLATION")]
-            detail = [l for l in o.splitlines() if l.startswith("  ")][:4]
-            res["checks"][p] = {"rc": rc, "violations": len(viol), "first": detail, "tail": o.strip().splitlines()[-1][-300:] if o.strip() else "", "secs": round(time.time() - t0)}
+            rc, o, e = sh(f"/verif/.venv/bin/python /verif/checks/{p.lower()}.py", cwd="/verif", env=env)
+            lines = o.splitlines()
+            viol = [l for l in lines if l.startswith("VIOLATION")]
+            detail = [lines[i + 1] for i, l in enumerate(lines) if l.startswith("VIOLATION") and i + 1 < len(lines)][:4]
+            res["checks"][p] = {"rc": rc, "violations": len(viol), "first": [d[:260] for d in detail], "tail": lines[-1][-300:] if lines else "", "secs": round(time.time() - t0)}
     finally:
-        sh("git checkout -- . && git clean -fdq", cwd="/repo")
-        # evidence files were overwritten by the patched run; restore committed ones
-        sh("git checkout -- evidence 2>/dev/null; rm -rf replays/*/", cwd="/verif")
+        sh("git checkout -- . && git clean -fdq", cwd=wt)
     print(json.dumps(res, indent=1))
     return 0
 
